@@ -75,6 +75,23 @@ def ring_stereo_family(rng, k):
     return out
 
 
+# kekule-form 5-5 fused heterobicycles with a bridgehead N (pyrrolo[1,2-a]imidazole, pyrrolo[2,1-b]thiazole / oxazole and their isomers with the
+# heteroatom on the bridgehead N): thiele() aromatizes the second five-membered ring BY RULE after the ordinary pass - the rule matcher runs
+# on the half-aromatized molecule (and caches what it compiled) and the bonds are rewritten once more afterwards
+FREAKS = ['N1C=CN2C=CC=C12', 'S1C=CN2C=CC=C12', 'O1C=CN2C=CC=C12', 'CN1C=CN2C=CC=C12', 'C1=CC2=CC=CN2S1', 'N1C=Cn2cccc12', 'CC1=CN2C=CC=C2S1']
+
+
+def freak_family(rng, k):
+    out = []
+    for _ in range(k):
+        x = rng.choice(['N8', 'S8', 'O8', 'N8(C)', 'N8(CC)', '[Se]8'])          # the heteroatom closes ring 8, the bridgehead N ring 9
+        r = rng.choice(['C', 'F', 'Cl', 'OC', 'C(=O)O', 'c1ccccc1', 'C#N', 'N'])
+        t = rng.choice(['{x}C=CN9C=CC=C89', '{x}C({r})=CN9C=CC=C89', '{x}C=C({r})N9C=CC=C89', '{x}C=CN9C({r})=CC=C89', '{x}C=CN9C=CC({r})=C89',
+                        '{x}C=CN9C=C({r})C=C89', 'C8=CC9=CC=CN9{x}', 'C8({r})=CC9=CC=CN9{x}', 'C8=C({r})C9=CC=CN9{x}', '{x}C=CN9C=CC=C89.{r}C'])
+        out.append(t.format(x=x, r=r))
+    return out
+
+
 # aromatic N - metal chelates written with covalent bonds: kekule() rewrites the N-M bonds to coordinate bonds (order 8), which ring
 # perception ignores, so the chelate ring disappears and the kept ring caches must be dropped
 CHELATES = ['[Cu]1n2ccccc2-c2ccccn12', '[Pd]1n2ccccc2CCc2ccccn12', '[Ni]1n2ccccc2-c2ccccn12', '[Zn]1n2ccccc2C=Cc2ccccn12']
@@ -103,6 +120,9 @@ OPS = [('canonicalize', {}), ('standardize', {}), ('standardize', {'fix_stereo':
        ('remove_metals', {}), ('remove_coordinate_bonds', {}), ('clean_stereo', {}), ('clean_isotopes', {}), ('check_valence', {}),
        ('fix_stereo', {}), ('split_metal_salts', {})]
 # not observed: saturate() (retries with random.shuffle by design), format(m, 'r') (random by design), clean2d (coordinates only)
+
+# queries whose answer depends on what the compiled structure buffer says about aromaticity / hybridization / ring membership / neighbours
+MATCH_AFTER_OP = ['[#6]:[#6]', '[#6;a]:[#7;a]', '[#6]=[#6]', '[#6;D3;a]', '[#6;z2]', '[#6;r5,r6]', '[#6;h3]']
 
 FORMATS = ['h', 'A', 'm', '!s', 'a', '!b!z', 'hAm', '!x']
 
@@ -290,10 +310,17 @@ def observe_ops(m, env):
     n = len(m._atoms)
     stale = []
 
+    # match LISTS through the accelerated matcher (it compiles the molecule into a cached buffer: aromaticity, hybridization, ring marks,
+    # neighbours) and through the reference matcher: what an operation leaves in that buffer must be what a fresh copy compiles
+    mq = [(sma, q) for sma, q in env['queries'] if q is not None and sma in MATCH_AFTER_OP]
+
+    def matches(x):
+        return [(sma, list(itertools.islice(q.get_mapping(x), 60)), list(itertools.islice(q.get_mapping(x, _cython=False), 60)) if env['cython'] and i < 3 else None) for i, (sma, q) in enumerate(mq)]
+
     def answers(x):
         if n > 22:          # bigger inputs: the cheaper half
-            return ser((str(x), x.atoms_order, x.sssr, x.rings_count))
-        return ser((str(x), x.smiles_atoms_order, x.atoms_order, x.sssr, x.rings_count, sorted(sorted(c_) for c_ in x.connected_components),
+            return ser((str(x), x.atoms_order, x.sssr, x.rings_count, matches(x)[:3]))
+        return ser((matches(x), str(x), x.smiles_atoms_order, x.atoms_order, x.sssr, x.rings_count, sorted(sorted(c_) for c_ in x.connected_components),
                     [(a.charge, a.is_radical, a.implicit_hydrogens, a.hybridization, a.ring_sizes, a.in_ring) for _, a in x.atoms()]))
     for name, kw in OPS:
         def one():
@@ -969,6 +996,23 @@ def obs_code(kind, smi, name):
     return pre + m + f'print(str(m))  # observable {name!r}: see harness/checks/C19.py observe_reads/observe_ops'
 
 
+def op_code(smi, name):
+    """replay of a `stale-after-op` difference: the in-place operation, then what the object answers (strings, orders, match lists through the
+    accelerated and the reference matcher) against what a fresh copy of it answers"""
+    op = name[3:].split('{')[0]
+    return ('import boot, os, sys, types, itertools\nimport chython, iso_pyx\nimport chython.algorithms as alg\n'
+            'rel = "chython/algorithms/_isomorphism.pyx"; repo = os.path.dirname(os.path.dirname(chython.__file__))\n'
+            'py, _ = iso_pyx.transpile(open(os.path.join(repo, rel)).read(), rel); mod = types.ModuleType("chython.algorithms._isomorphism")\n'
+            'exec(compile(py, rel, "exec"), mod.__dict__); sys.modules["chython.algorithms._isomorphism"] = mod; alg._isomorphism = mod\n'
+            'from chython import smiles, smarts\n' + f'm = smiles({smi!r}); str(m), m.atoms_order, m.sssr\nr = m.{op}()\n' +
+            f'f = lambda x: [(str(x), x.atoms_order, x.sssr)] + [(q, list(itertools.islice(smarts(q).get_mapping(x), 60))) for q in {MATCH_AFTER_OP!r}]\n' +
+            f'g = lambda x: [(q, list(itertools.islice(smarts(q).get_mapping(x, _cython=False), 60))) for q in {MATCH_AFTER_OP!r}]\n' +
+            'mine, fresh, ref = f(m), f(m.copy()), g(m)\n'
+            'for a, b in zip(mine, fresh):\n    if a != b: print("object after the operation:", a); print("fresh copy of it         :", b)\n'
+            'for a, b in zip(mine[1:], ref):\n    if a != b: print("accelerated matcher:", a); print("reference matcher  :", b)\n'
+            'print("IDENTICAL" if mine == fresh and mine[1:] == ref else "DIFFERENT")\n')
+
+
 def iso_code(smi, name):
     """replay of an `isolated` / `impure-read` difference: the observable alone on a cache-free copy, then again after the other readers ran"""
     expr = 'str(x)' if name == 'str' else f'format(x, {name[4:]!r})' if name.startswith('fmt:') else f'x.{name}' if name in CACHED_ATTRS else \
@@ -992,6 +1036,8 @@ def build_spec(ck):
     for s in CHELATES:
         mols.append(('hand:' + s, s))
         mols.append(('ion:' + s, s))
+    for s in dict.fromkeys(FREAKS + freak_family(random.Random(f'{ck.seed}:c19freaks'), 5 if quick else 40)):
+        mols.append(('hand:' + s, s))
     for s in dict.fromkeys(RING_STEREO + ring_stereo_family(random.Random(f'{ck.seed}:c19ringstereo'), 6 if quick else 40)):
         mols.append(('hand:' + s, s))
     pool = corpus.sample(corpus.lipo(), 24 if quick else 500, ck.seed, 'c19')
@@ -1199,7 +1245,7 @@ def differential(ck, spec, results, label=''):
             ck.counterexample(f'{vkey}:{family(d["observable"])}', f'{d["observable"]} of {smi!r}: first call differs from {d["variant"]}',
                               {'input': smi, 'observable': d['observable'], 'variant': d['variant'], 'PYTHONHASHSEED': seed},
                               d['other'], d['first'], 'first (uncached) evaluation of the same object',
-                              replay_py=iso_code(smi, d['observable']) if vkey in ('isolated', 'impure-read') else obs_code('molecule', smi, d['observable']))
+                              replay_py=iso_code(smi, d['observable']) if vkey in ('isolated', 'impure-read') else op_code(smi, d['observable']) if vkey == 'stale-after-op' else obs_code('molecule', smi, d['observable']))
     ck.extra['differential' if not label else 'differential_directed'] = {'processes': len(good), 'seeds': [s for _, s, _ in good], 'inputs': len(base['obs']),
                                 'observables_per_process': sum(len(o) for o in base['obs'].values()),
                                 'pairwise_comparisons': n_cmp, 'differences': n_diff, 'intra_process_differences': n_intra,
@@ -1429,7 +1475,13 @@ def memo_keep_cases(ck, rng):
     from chython import smiles
     import gen_cachekeys
     table = gen_cachekeys.extract(common.REPO)
-    props = ['atoms_order', 'sssr', 'rings_count', 'connected_components_count', 'atoms_rings_sizes', 'bonds_count', 'str_len', 'smiles_atoms_order']
+    props = ['atoms_order', 'sssr', 'rings_count', 'connected_components_count', 'atoms_rings_sizes', 'bonds_count', 'str_len', 'smiles_atoms_order', 'match_code']
+    # match_code: the match lists of aromaticity / hybridization sensitive queries through the ACCELERATED matcher (transpiled .pyx, injected here as in the
+    # workers), which compiles the molecule into a cached buffer (_cython_compiled_structure) that no partial flush keeps
+    cython, _ = inject_pyx(common.REPO)
+    ck.extra['partial_flush_histories_use_accelerated_matcher'] = cython
+    from chython import smarts
+    mqs = [smarts(q) for q in MATCH_AFTER_OP[:4]]
     fam = {'keep_sssr': [props.index(k) for k in props if k in table['flush']['keep_sssr']],
            'keep_components': [props.index('connected_components_count')]}
     flags = {}
@@ -1453,21 +1505,25 @@ def memo_keep_cases(ck, rng):
     def value(m, k):
         if k == 'str_len':
             return len(str(m))
+        if k == 'match_code':
+            return int.from_bytes(hashlib.blake2b(ser([list(itertools.islice(q.get_mapping(m), 60)) for q in mqs]).encode(), digest_size=4).digest(), 'big')
         v = getattr(m, k)
         if isinstance(v, int):
             return v
         return int.from_bytes(hashlib.blake2b(ser(v).encode(), digest_size=4).digest(), 'big')
     cases, meta = [], []
     for smi in ['c1ccccc1C', 'C1=CC=CC=C1O', 'CC(=O)[O-].C[NH3+]', 'C[n+]1ccn(CC)c1.[Cl-]', 'C[N+](=O)[O-]', 'CN(=O)=O', '[13CH3]c1ccncc1', 'C[C@H](N)C(=O)O',
-                'O=c1cccc[nH]1', 'C[Fe](C)(C)C', '[H]C([H])([H])O', 'C12C3C4C1C5C2C3C45'] + CHELATES[:3]:
+                'O=c1cccc[nH]1', 'C[Fe](C)(C)C', '[H]C([H])([H])O', 'C12C3C4C1C5C2C3C45'] + CHELATES[:3] + FREAKS[:5] + freak_family(rng, 2 if ck.tier == 'quick' else 12):
         for h in range(2 if ck.tier == 'quick' else 10):
             m = smiles(smi)
             states = [[value(m.copy(), k) for k in props]]
             ops, observed, nochange = [], [], []
-            for _ in range(rng.randint(5, 9)):
-                r = rng.random()
+            # the first history of every input is scripted: every aromaticity-changing operation is followed by a read of the match lists
+            script = ['match_code', 'thiele', 'match_code', 'sssr', 'kekule', 'match_code', 'thiele', 'match_code', 'standardize_charges', 'match_code'] if h == 0 else None
+            for step in range(len(script) if script else rng.randint(5, 9)):
+                r = rng.random() if not script else (0.0 if script[step] in props else 1.0)
                 if r < 0.55:
-                    k = rng.randrange(len(props))
+                    k = rng.randrange(len(props)) if not script else props.index(script[step])
                     if props[k] == 'str_len':
                         ops.append(f'KReadStoring {k}%nat [{props.index("smiles_atoms_order")}%nat]')
                     elif props[k] == 'smiles_atoms_order':
@@ -1479,7 +1535,7 @@ def memo_keep_cases(ck, rng):
                     except Exception:
                         ops.pop()
                 else:
-                    mth = rng.choice(methods)
+                    mth = rng.choice(methods) if not script else script[step]
                     try:
                         res = getattr(m, mth)()
                     except Exception:
